@@ -228,6 +228,8 @@ def gen_scenario(rng, ops=None, force=None):
     T = rng.randint(5, 24)
     Y = rng.randint(1, 6)
     X = rng.randint(1, 6)
+    if rng.random() < 0.1 and op not in ("whitint", "whitswcv"):
+        T = rng.randint(2, 4)  # very short series (both paths may legitimately refuse them)
     if "shape" in force:
         T, Y, X = force["shape"]
     elif BIG_FRACTION and rng.random() < BIG_FRACTION:
@@ -509,6 +511,9 @@ def gen_scenario(rng, ops=None, force=None):
         # labelled secondary rasters are matched by dimension NAME: their own dim order is free
         "secondary_order": {k: rng.choice([None, "yx", "xy"]) for k in secondary} if op != "zonal_mean" else {},
         "aux_coords": rng.random() < 0.3,
+        # how scalar arguments / the nodata attribute are typed, and how the cube is named
+        "scalar_kind": rng.choice(["py", "py", "np", "npfloat"]),
+        "cube_name": rng.choice(["band", "band", None, "ndvi"]),
         "pattern": pattern,
     }
     return scn
@@ -525,6 +530,24 @@ def cube_coords(scn):
     y = 10.0 - 0.5 * np.arange(Y)
     x = 30.0 + 0.5 * np.arange(X)
     return time, y, x
+
+
+def typed_scalar(scn, v, dtype=None):
+    """A scalar argument as the scenario says users pass it: python number, numpy scalar of the
+    cube's dtype, or numpy float64."""
+    kind = scn.get("scalar_kind", "py")
+    if v is None or isinstance(v, bool):
+        return v
+    if kind == "np" and dtype is not None and np.dtype(dtype).kind in "iuf":
+        try:
+            if float(np.dtype(dtype).type(v)) == float(v):
+                return np.dtype(dtype).type(v)
+        except (OverflowError, ValueError):
+            pass
+        return v
+    if kind == "npfloat":
+        return np.float64(v)
+    return v
 
 
 def build_cube(scn, perm=None):
@@ -545,9 +568,9 @@ def build_cube(scn, perm=None):
         coords["doy"] = ("time", np.asarray(time.dayofyear, dtype="int64"))
         coords["lat2d"] = (("y", "x"), lat)
         coords["level"] = 7
-    da = xr.DataArray(data, dims=("time", "y", "x"), coords=coords, name="band")
+    da = xr.DataArray(data, dims=("time", "y", "x"), coords=coords, name=scn.get("cube_name", "band"))
     da = da.transpose(*scn["layout"]).copy()
-    da.attrs["nodata"] = scn["nodata"]
+    da.attrs["nodata"] = typed_scalar(scn, scn["nodata"], data.dtype)
     op, p = scn["op"], scn["params"]
     if op in ("spi", "mean_grp", "rolling_sum") and p.get("nodata_via") == "arg":
         del da.attrs["nodata"]
@@ -629,24 +652,25 @@ def build_aux(scn, lazy, perm=None):
 def apply_op(scn, cube, lazy, perm=None, aux=None):
     """Run the scenario's accessor operation on ``cube`` (numpy- or dask-backed)."""
     op, p = scn["op"], scn["params"]
-    nodata = scn["nodata"]
+    nodata = typed_scalar(scn, scn["nodata"], scn["cube"]["dtype"])
     if aux is None:
         aux = build_aux(scn, lazy, perm)
+    ts = lambda v: typed_scalar(scn, v, "float64") if scn.get("scalar_kind") != "py" else v  # noqa: E731
     if True:  # warnings are silenced process-wide (catch_warnings is not thread-safe)
         if op == "whits":
-            kw = {"nodata": nodata, "p": p["p"]}
+            kw = {"nodata": nodata, "p": ts(p["p"])}
             if "s" in p:
-                kw["s"] = p["s"]
+                kw["s"] = ts(p["s"])
             else:
                 kw["sg"] = aux["sg"]
             return cube.hdc.whit.whits(**kw)
         if op == "whitsvc":
             if p["variant"] == "lc":
-                return cube.hdc.whit.whitsvc(nodata=nodata, lc=aux["lc"], p=p["p"])
-            return cube.hdc.whit.whitsvc(nodata=nodata, srange=aux["srange"], p=p["p"])
+                return cube.hdc.whit.whitsvc(nodata=nodata, lc=aux["lc"], p=ts(p["p"]))
+            return cube.hdc.whit.whitsvc(nodata=nodata, srange=aux["srange"], p=ts(p["p"]))
         if op == "whitswcv":
             sr = aux.get("srange")
-            return cube.hdc.whit.whitswcv(nodata=nodata, srange=sr, p=p["p"], robust=p["robust"])
+            return cube.hdc.whit.whitswcv(nodata=nodata, srange=sr, p=ts(p["p"]), robust=p["robust"])
         if op == "whitint":
             return cube.hdc.whit.whitint(aux["labels"], aux["template"])
         if op == "spi":
@@ -680,7 +704,10 @@ def apply_op(scn, cube, lazy, perm=None, aux=None):
             kw = {"nodata": nodata} if p["nodata_via"] == "arg" else {}
             if p.get("dtype"):
                 kw["dtype"] = p["dtype"]
-            return cube.hdc.rolling.sum(p["window"], **kw)
+            w = p["window"]
+            if scn.get("scalar_kind") == "np":
+                w = np.int64(w)
+            return cube.hdc.rolling.sum(w, **kw)
         if op == "zonal_mean":
             zones = aux["zones"]
             return cube.hdc.zonal.mean(
